@@ -28,7 +28,7 @@ COMPONENTS = {"real": ["setigen.voltage.quantization (RealQuantizer, ComplexQuan
 ASSUMPTIONS = ["a 'constant' input is an array of one repeated value (zero variance by definition, whatever its computed std)",
                "|x| kept within 1e-100..1e140 so that sums of squares neither overflow nor underflow",
                "+-1 tolerated iff the reference pre-rounding value is within 1e-9 of a rounding boundary"]
-PROBES = ["integer_parameters_as_numpy_scalars", "real_dtype_input_to_complex_quantiser", "refresh_skipped", "refresh_taken_later_call", "zero_variance_input", "custom_std_used",
+PROBES = ["object_copied_or_pickled_between_calls", "integer_parameters_as_numpy_scalars", "real_dtype_input_to_complex_quantiser", "refresh_skipped", "refresh_taken_later_call", "zero_variance_input", "custom_std_used",
           "ncalc_shorter_than_input", "clipped_values", "two_d_input", "period_nonpositive", "rejected_call"]
 
 KINDS = ["gauss", "gauss", "gauss", "const", "two", "ramp", "huge", "tiny", "len1", "2d", "pedestal"]
@@ -96,6 +96,8 @@ def generate(rng, tier):
         elif r < 0.76:
             # a call the quantiser must reject: it is not a call of the refresh schedule and leaves the estimates alone
             ops.append({"op": "reject", "q": q, "how": rng.choice(["none", "pair_custom"])})
+        elif r < 0.78:
+            ops.append({"op": "snapshot", "q": q, "how": rng.choice(["deepcopy", "pickle"])})
         elif r < 0.80:
             ops.append({"op": "reset", "q": q})
         elif r < 0.88:
@@ -248,7 +250,7 @@ def _held_intact(ctx, held):
 
 def _step(qz, objs, op, ctx, held):
     kind = op["op"]
-    if kind in ("q", "reset", "target") and objs[op["q"] % len(objs)].get("dead"):
+    if kind in ("q", "reset", "target", "snapshot") and objs[op["q"] % len(objs)].get("dead"):
         return
     if kind == "q":
         S = objs[op["q"] % len(objs)]
@@ -328,6 +330,16 @@ def _step(qz, objs, op, ctx, held):
         else:
             ctx.hit("invalid_call_accepted")
             S["dead"] = True
+    elif kind == "snapshot":
+        # the object is copied or pickled between two calls (a checkpoint; a template handed to a backend)
+        import pickle as _pickle
+        S = objs[op["q"] % len(objs)]
+        if op["how"] == "deepcopy":
+            copy.deepcopy(S["o"])
+        else:
+            _pickle.loads(_pickle.dumps(S["o"]))
+        ctx.hit("object_copied_or_pickled_between_calls")
+        ctx.event("snapshot", op["q"])
     elif kind == "reset":
         S = objs[op["q"] % len(objs)]
         S["o"]._reset_cache()
